@@ -136,7 +136,9 @@ func Gen(r *rng.R, env *Env, o GenOpts) *Tree {
 		}
 		blk, ks := b.Mine(r)
 		if _, dup := t.ByID[blk.ID()]; dup {
-			panic("chaingen: duplicate block id")
+			// an otherwise identical sibling ground the same nonce (hard-target regimes): drop this
+			// builder and mine another block instead (the random stream has moved on)
+			continue
 		}
 		n := &Node{Block: blk, ID: blk.ID(), Parent: parent, Height: parent.Height + 1, Kinds: ks, HdrOK: true, BodyOK: true}
 		cs, _ := b.CM.State(n.ID)
